@@ -50,6 +50,10 @@ CHECKS.update({
                 technique="stateful property testing (rapid state machine) of the production api/aio queues and system.Tick with a harness-stepped subsystem; plus a goroutine stress run judged after Loop returned",
                 text="(a) deterministic: one goroutine drives submit / burst / tick / complete-one / shutdown on the production internal/api queue, internal/aio completion queue and system.Tick with every size (api queue, completion queue, subsystem queue, coroutine pool, batch sizes) down to 1; oracle: exactly one answer per request at quiescence, door refusals only when the queue can be full (occupancy interval), shutting-down for requests after Shutdown, payload echoed to its own request, Done() reached after Shutdown with everything accepted answered. (b) stress: real clients, echo + sqlite workers (1 ns tx timeout => natural failures), Loop and Shutdown; judged after Loop and all clients returned: no request answered twice or never.",
                 note="(b) samples Go scheduler interleavings (not reproducible; its seed only selects sizes); a run whose clients or Loop do not return in 30 s is classified inconclusive, not a violation. Reading suggests a window between the a.done check in EnqueueSQE and Loop's exit (F16); it was not observed and is therefore not a listed finding."),
+    "C13": dict(engine="proc", category="exploration", design="§5 C13",
+                technique="grammar + dictionary mutation fuzzing of a real server process over HTTP and gRPC, stateful poison-pill scenarios, restart on the same database, automatic bisection of a failing batch to a minimal request list",
+                text="A real `resonate serve` built from the tree. Generated batches of scenarios: valid skeletons of every endpoint of both protocols x one mutation (absent, empty, null, negative, 0, +-2^31, +-2^63, 1e100, wrong type, 64 KiB, hostile dictionary: JSON literals, template syntax, separators, receivers of every shape, URLs, cron oddities, forged/damaged cursors), and stateful scenarios that store hostile data and trigger its later processing (routing, time-out, registration conversion + dispatch through the real sender/poll/http plugins, schedule firing). After each batch: > 10 background cycles, health check, kill, restart on the same file, cycles, health check. Oracle: process alive and answering, every request answered, certainly-invalid requests answered 400/InvalidArgument leaving no row, no 5xx for client input. A death or wedge is bisected on fresh servers to a minimal request list. Found and repaired F2, F4, F7, F8, F9, F10 (and F6, F11 through C19/C18).",
+                note="Timing is wall-clock (background cycle 200 ms, waits of 2.6 s / 1.5 s); a slow machine can make a health check miss a deadline: such runs show as wedge reports whose bisection does not reproduce. The dictionary is the corpus; absence of further crashes is not established."),
     "C15": dict(engine="front", category="exploration", design="§5 C15",
                 technique="exhaustive enumeration of the (endpoint x kernel status x response shape x delivery) matrix against a stub kernel, plus property-based differential testing (rapid) of HTTP vs gRPC request translation",
                 text="Part 1 enumerates completely, on every run, every endpoint of both protocols x every StatusCode constant (parsed from t_api/status.go at run time) x every response shape the operation's coroutine can return, delivered as response status and as t_api.Error, through the real gin handler and the real gRPC service methods: no panic / dropped reply, HTTP code = status/100 with a parsable error body carrying the status, gRPC OK message or the documented code class, outcome flags consistent with the status. Part 2 generates well-formed requests in both protocols and requires the same t_api.Request to reach the kernel. Found F5 (statuses missing from tables; released flag), repaired.",
@@ -67,6 +71,7 @@ CHECKS.update({
 NOT_APPLICABLE = []
 
 ENGINES = [
+    dict(name="proc", path="harness/proc", kind_free_text="real `resonate serve` subprocess built from the tree: process control, HTTP + gRPC clients, read-only observer on the sqlite file, batch bisection"),
     dict(name="kernelq", path="harness/kernelq", kind_free_text="production api/aio queues + system.Tick/Loop/Shutdown: deterministic state machine and goroutine stress"),
     dict(name="pollt", path="harness/pollt", kind_free_text="poll transport: single-threaded registry driver + reference model; wire-level SSE run"),
     dict(name="route", path="harness/route", kind_free_text="real router + sender worker with recording plugins vs reference receiver resolution"),
